@@ -7,7 +7,7 @@
    Notation: `asg memb r` is the label of row r, `lsum f l` the sum of f over the index list l,
    `lcount p l` the number of indices in l satisfying p. *)
 From Coq Require Import List Arith Bool Reals Lra Lia.
-From SC Require Import Base.Num C12.Model C12.ProofsBase C12.ProofsTree C12.ProofsFilter C12.ProofsKMeans.
+From SC Require Import Base.Num C12.Model C12.ProofsBase C12.ProofsTree C12.ProofsFilter C12.ProofsKMeans C12.ProofsBuild.
 Import ListNotations.
 Open Scope R_scope.
 
@@ -95,19 +95,63 @@ Theorem C12_predict_nearest : forall maxv cents row,
     sqdist ROps row (nth (predict_row ROps maxv cents row) cents []) <= sqdist ROps row (nth j cents []).
 Proof. exact predict_nearest. Qed.
 
-(* ---- extensions that are NOT proved (checked per run only: correspondence `build_node`,
-        `wf_on_dump`, `kmeans_plus_plus_replayed`, and the search) ---- *)
-
-(* tree construction: whenever build_node succeeds on data whose distinct rows differ by at least
-   2e-10 in some coordinate (the leaf rule merges rows closer than 1e-10 — see the report: on data
-   violating this the implementation's tree is NOT well-formed and k-means returns centroids that
-   are not cluster means), the tree is well-formed.  Missing: invariants of the in-place partition
-   loop and of the bounding-box pass. *)
-Definition C12_build_wf_full_statement : Prop :=
-  forall data t perm,
+(* ---- tree construction: BBDTree::new / build_node, OVER THE REALS (model at ROps) ----
+   Every tree the construction returns is well-formed, so C12_filter_exact / C12_lloyd_bookkeeping
+   apply to every BUILT tree, not only to trees whose dump passed the per-run wf check.
+   Hypotheses: the data form a matrix (all rows have the same length — always true of a Rust
+   `Matrix`; the earlier draft of this statement lacked it and is false for ragged lists, e.g.
+   [[0]; [0; 5]] builds a one-coordinate leaf) and distinct rows differ by at least 2e-10 in some
+   coordinate (the leaf rule `radius < 1e-10` is absolute and merges closer rows: known finding
+   bbd-leaf-threshold-absolute).
+   This is a theorem about exact arithmetic.  Over R the cutoff (l+u)/2 of the widest coordinate
+   satisfies l < cutoff < u, so both sides of every split are non-empty, the partition loop never
+   underflows and the recursion terminates (C12_build_total).  Over binary64 that is FALSE: the
+   midpoint of two adjacent floats rounds to the lower one, one side is empty and the code recurses
+   without bound or underflows an index (known finding bbd-adjacent-float-split).  For the
+   implementation the link remains the per-run correspondence (build / build_node groups: the model
+   at FOps reproduces the dumped node vector and index permutation bit for bit) and wf_on_dump. *)
+Theorem C12_build_wf : forall data t perm,
+    (forall r, In r data -> length r = length (hd [] data)) ->
     (forall r1 r2, (r1 < length data)%nat -> (r2 < length data)%nat -> nth r1 data [] <> nth r2 data [] ->
        exists q, Rabs (nth q (nth r1 data []) 0 - nth q (nth r2 data []) 0) >= 2 / 10000000000) ->
     build ROps data = Some (t, perm) -> wf_bbd ROps 0 data perm t = true.
+Proof. exact build_wf. Qed.
+
+(* over R the construction never fails on a non-empty matrix: no index underflow in the partition
+   loop, no empty side, and the fuel 2n+2 of the model is never exhausted *)
+Theorem C12_build_total : forall data,
+    (1 <= length data)%nat -> (forall r, In r data -> length r = length (hd [] data)) ->
+    exists t perm, build ROps data = Some (t, perm).
+Proof. exact build_total. Qed.
+
+(* hence the assignment step is exact on every built tree (C12_filter_exact without the wf hypothesis) *)
+Theorem C12_built_filter_exact : forall data perm t centroids sums counts memb dist sums' counts' memb',
+  (forall r, In r data -> length r = length (hd [] data)) ->
+  (forall r1 r2, (r1 < length data)%nat -> (r2 < length data)%nat -> nth r1 data [] <> nth r2 data [] ->
+     exists q, Rabs (nth q (nth r1 data []) 0 - nth q (nth r2 data []) 0) >= 2 / 10000000000) ->
+  build ROps data = Some (t, perm) ->
+  clustering ROps perm centroids t (sums, counts, memb) = Some (dist, (sums', counts', memb')) ->
+  let n := length data in
+  let k := length centroids in
+  let d := length (hd [] data) in
+  length memb' = length memb /\
+  (forall r, (r < n)%nat ->
+     (asg memb' r < k)%nat /\
+     forall j, (j < k)%nat ->
+       sqdist ROps (nth r data []) (nth (asg memb' r) centroids []) <= sqdist ROps (nth r data []) (nth j centroids [])) /\
+  (forall c q, (c < k)%nat -> (q < d)%nat ->
+     nth q (nth c sums' []) 0 =
+     lsum (fun r => if (asg memb' r =? c)%nat then nth q (nth r data []) 0 else 0) (seq 0 n)) /\
+  (forall c, (c < k)%nat -> nth c counts' 0%nat = lcount (fun r => (asg memb' r =? c)%nat) (seq 0 n)) /\
+  length sums' = k /\ length counts' = k /\
+  dist = lsum (fun r => sqdist ROps (nth r data []) (nth (asg memb' r) centroids [])) (seq 0 n).
+Proof.
+  intros data perm t centroids sums counts memb dist sums' counts' memb' Hrect Hsep Hb Hcl.
+  exact (clustering_exact _ _ _ _ _ _ _ _ _ _ _ (build_wf _ _ _ Hrect Hsep Hb) Hcl).
+Qed.
+
+(* ---- extensions that are NOT proved (checked per run only: `kmeans_plus_plus_replayed` and the
+        search) ---- *)
 
 (* k-means++ seeding leaves no cluster empty given k distinct rows and draws r in (0,1].
    Missing: the invariant that every chosen row is a new distinct row. *)
@@ -168,3 +212,21 @@ Qed.
 
 Example C12_ex_predict : exists j, (j < length [[0]; [3]])%nat /\ sqdist ROps [1] (nth j [[0]; [3]] []) < 1000.
 Proof. exists 0%nat. split; [simpl; lia|]. cbn. lra. Qed.
+
+(* the hypotheses of C12_build_wf / C12_built_filter_exact are satisfiable: ex_data is a matrix, its
+   rows are 2 apart, and the construction returns a tree over it *)
+Example C12_ex_build :
+  (forall r, In r ex_data -> length r = length (hd [] ex_data)) /\
+  (forall r1 r2, (r1 < length ex_data)%nat -> (r2 < length ex_data)%nat -> nth r1 ex_data [] <> nth r2 ex_data [] ->
+     exists q, Rabs (nth q (nth r1 ex_data []) 0 - nth q (nth r2 ex_data []) 0) >= 2 / 10000000000) /\
+  exists t perm, build ROps ex_data = Some (t, perm).
+Proof.
+  assert (Hrect : forall r, In r ex_data -> length r = length (hd [] ex_data)).
+  { intros r [<-|[<-|[]]]; reflexivity. }
+  split; [exact Hrect|]. split.
+  - intros r1 r2 H1 H2 Hne.
+    destruct r1 as [|[|r1]]; destruct r2 as [|[|r2]]; cbn [ex_data length] in H1, H2; try lia;
+      try (exfalso; apply Hne; reflexivity); exists 0%nat; cbn [ex_data nth];
+      unfold Rabs; destruct (Rcase_abs _); lra.
+  - apply C12_build_total; [cbn; lia | exact Hrect].
+Qed.
